@@ -197,9 +197,10 @@ class MessageDispatcher(ClientMessageSink):
     open_latency = open_time - start_time
 
     if timeout:
-      # Calculate the deadline for this method call.
-      # Reduce it by the time it took for the open() to complete.
-      deadline = start_time + timeout - open_latency
+      # Calculate the absolute deadline for this method call.  The time it
+      # took for the open() to complete counts against the timeout, which an
+      # absolute deadline based on start_time already accounts for.
+      deadline = start_time + timeout
     else:
       deadline = None
 
